@@ -59,6 +59,7 @@ enum Op {
     CreateBtree(u64),
     Advance(u64),
     CleanupLocks,
+    RollbackResolved(u64), // already an actual transaction id (not a symbolic number)
 }
 impl Op {
     fn coq(&self) -> String {
@@ -68,7 +69,7 @@ impl Op {
             Op::Update(t, c, col, v) => format!("RUpdate {} {} {col} {v}", on(*t), c.coq()),
             Op::Delete(t, c) => format!("RDelete {} {}", on(*t), c.coq()),
             Op::Commit(t) => format!("RCommit {t}"),
-            Op::Rollback(t) => format!("RRollback {t}"),
+            Op::Rollback(t) | Op::RollbackResolved(t) => format!("RRollback {t}"),
             Op::CreateIndex(c) => format!("RCreateIndex {c}"),
             Op::CreateBtree(c) => format!("RCreateBtree {c}"),
             Op::Advance(d) => format!("RAdvance {d}"),
@@ -86,9 +87,12 @@ struct World {
     rr: u64,
 }
 impl World {
-    fn new(lock_secs: u64, vv: u64, rr: u64) -> World {
+    fn new(lock_secs: u64, vv: u64, rr: u64, budget: Option<u64>) -> World {
         verif_clock::set(Some(T0));
-        let cfg = RelationalConfig { lock_timeout_secs: lock_secs, ..RelationalConfig::default() };
+        let mut cfg = RelationalConfig { lock_timeout_secs: lock_secs, ..RelationalConfig::default() };
+        if let Some(bm) = budget {
+            cfg.max_btree_entries = bm as usize;
+        }
         let e = RelationalEngine::with_config(cfg);
         e.create_table("t", Schema::new(vec![Column::new("a", ColumnType::Int), Column::new("b", ColumnType::Int)])).unwrap();
         // transaction ids come from a process-wide counter: renumber from the id of a throw-away transaction
@@ -122,6 +126,7 @@ impl World {
             RelationalError::RollbackFailed { .. } => vec![3],
             RelationalError::LockConflict { blocking_tx, row_id, .. } => vec![4, self.small(*blocking_tx), *row_id],
             RelationalError::IndexAlreadyExists { .. } => vec![5],
+            RelationalError::ResultTooLarge { .. } => vec![6],
             _ => vec![99],
         }
     }
@@ -168,7 +173,7 @@ impl World {
                 Ok(()) => vec![0],
                 Err(e) => self.err(&e),
             },
-            Op::Rollback(t) => match self.e.rollback(self.real(*t)) {
+            Op::Rollback(t) | Op::RollbackResolved(t) => match self.e.rollback(self.real(*t)) {
                 Ok(()) => vec![0],
                 Err(e) => self.err(&e),
             },
@@ -196,7 +201,7 @@ impl World {
             Op::Delete(Some(_), ..) => "tx_delete",
             Op::Delete(None, ..) => "delete_rows",
             Op::Commit(_) => "commit",
-            Op::Rollback(_) => "rollback",
+            Op::Rollback(_) | Op::RollbackResolved(_) => "rollback",
             Op::CreateIndex(_) => "create_index",
             Op::CreateBtree(_) => "create_btree_index",
             Op::Advance(_) => "advance",
@@ -208,6 +213,7 @@ impl World {
             Some(3) => dist.hit("ret.rollback_failed"),
             Some(4) => dist.hit("ret.lock_conflict"),
             Some(5) => dist.hit("ret.index_exists"),
+            Some(6) => dist.hit("ret.btree_budget_exhausted"),
             Some(99) => dist.hit("ret.other_error"),
             _ => {}
         }
@@ -242,19 +248,36 @@ impl World {
 }
 
 fn run_case(ops: &[Op], lock_secs: u64, vv: u64, rr: u64, dist: &mut Dist) -> (String, String, bool) {
-    let mut w = World::new(lock_secs, vv, rr);
+    run_case_b(ops, lock_secs, vv, rr, None, dist)
+}
+
+/// budget = Some(n): the engine is created with max_btree_entries = n; a transaction whose statement failed half-way
+/// (ResultTooLarge) is rolled back right away
+fn run_case_b(ops: &[Op], lock_secs: u64, vv: u64, rr: u64, budget: Option<u64>, dist: &mut Dist) -> (String, String, bool) {
+    let mut w = World::new(lock_secs, vv, rr, budget);
     let mut obs = vec![];
     let mut conflicts = 0;
     let mut rollbacks = 0;
     let mut resolved = vec![];
-    for o in ops {
-        let o = &w.resolve(o);
+    let mut queue: std::collections::VecDeque<Op> = ops.iter().map(|o| w_resolve_later(o)).collect();
+    while let Some(o) = queue.pop_front() {
+        let o = &w.resolve(&o);
         resolved.push(o.clone());
         let ret = w.apply(o, dist);
+        if ret.first() == Some(&6) {
+            faults_inc(dist);
+            let who = match o {
+                Op::Insert(Some(t), ..) | Op::Update(Some(t), ..) | Op::Delete(Some(t), ..) => Some(*t),
+                _ => None,
+            };
+            if let Some(t) = who {
+                queue.push_front(Op::RollbackResolved(t));
+            }
+        }
         if ret.first() == Some(&4) {
             conflicts += 1;
         }
-        if matches!(o, Op::Rollback(_)) && matches!(ret.first(), Some(0) | Some(3)) {
+        if matches!(o, Op::Rollback(_) | Op::RollbackResolved(_)) && matches!(ret.first(), Some(0) | Some(3)) {
             rollbacks += 1;
         }
         obs.push(format!("({}, {})", ln(&ret), w.dump()));
@@ -263,6 +286,13 @@ fn run_case(ops: &[Op], lock_secs: u64, vv: u64, rr: u64, dist: &mut Dist) -> (S
     let ops = &resolved;
     let term = format!("({vv}, {rr}, {}, {}, {})", lock_secs * 1000, list(ops.iter().map(|o| o.coq())), list(obs));
     (term, format!("V={vv} lock_timeout_s={lock_secs} ops={ops:?}"), rollbacks >= 1 || conflicts >= 1)
+}
+
+fn w_resolve_later(o: &Op) -> Op {
+    o.clone()
+}
+fn faults_inc(dist: &mut Dist) {
+    dist.hit("budget.fault");
 }
 
 fn gen_cond(r: &mut Rng, vv: u64, depth: u32) -> Cond {
@@ -346,6 +376,23 @@ fn main() {
             ],
         ),
         (
+            "corpus lock takeover then COMMIT of the expired transaction: T1 update; 30001 ms; T2 update (takes the expired lock over); T1 commit; T3 must get LockConflict on the row T2 changed",
+            30,
+            vec![
+                Op::Insert(None, 1, 1), Op::Begin, Op::Update(Some(1), Cond::True, 0, 2), Op::Advance(30001), Op::Begin,
+                Op::Update(Some(2), Cond::True, 0, 0), Op::Commit(1), Op::Begin, Op::Update(Some(3), Cond::True, 0, 1),
+                Op::Delete(Some(3), Cond::True), Op::Delete(None, Cond::True), Op::Rollback(2),
+            ],
+        ),
+        (
+            "corpus lock takeover then ROLLBACK-free end by a second statement: T1 delete; expiry; T2 insert+update other row; T1 commit; T3 writes",
+            1,
+            vec![
+                Op::Insert(None, 1, 1), Op::Insert(None, 2, 2), Op::Begin, Op::Update(Some(1), Cond::Eq(0, 1), 1, 0), Op::Advance(1001), Op::Begin,
+                Op::Update(Some(2), Cond::Ge(0, 1), 1, 2), Op::Commit(1), Op::Update(None, Cond::Eq(0, 1), 1, 1), Op::Begin, Op::Delete(Some(3), Cond::Eq(0, 2)), Op::Commit(2),
+            ],
+        ),
+        (
             "corpus unlocked insert: T1 tx_insert; T2 tx_update(True) on the uncommitted row; T1 rollback; T2 commit",
             30,
             vec![Op::CreateIndex(0), Op::Begin, Op::Begin, Op::Insert(Some(1), 1, 1), Op::Update(Some(2), Cond::True, 0, 2), Op::Rollback(1), Op::Commit(2), Op::Insert(Some(1), 1, 1), Op::Commit(2)],
@@ -380,11 +427,72 @@ fn main() {
         rel.push(&t, &h, nt);
     }
 
+    // ---- budget: a small B-tree entry budget makes index maintenance fail in the middle of a statement
+    let mut bud = CaseWriter::new(&args.out, "budget");
+    let bcorpus: Vec<(&str, u64, Vec<Op>)> = vec![
+        (
+            "corpus budget: 2 keys; hash(a)+btree(b); rows (1,1) (2,1) (0,2); tx: update ok, then update b:=0 of row 1 fails half-way (old key still used by row 2) -> rollback; scan vs indexes",
+            2,
+            vec![
+                Op::CreateIndex(0), Op::CreateBtree(1), Op::Insert(None, 1, 1), Op::Insert(None, 2, 1), Op::Insert(None, 0, 2), Op::Begin,
+                Op::Update(Some(1), Cond::Eq(0, 0), 0, 2), Op::Update(Some(1), Cond::Eq(0, 1), 1, 0),
+            ],
+        ),
+        (
+            "corpus budget: the same failing update outside a transaction (internal rollback), then a failing delete-free tx_insert + rollback and a failing insert",
+            2,
+            vec![
+                Op::CreateIndex(1), Op::CreateBtree(1), Op::Insert(None, 1, 1), Op::Insert(None, 2, 1), Op::Insert(None, 0, 2),
+                Op::Update(None, Cond::Eq(0, 1), 1, 0), Op::Begin, Op::Insert(Some(1), 1, 0), Op::Insert(None, 2, 0),
+                Op::Begin, Op::Delete(Some(2), Cond::Eq(1, 1)), Op::Update(Some(2), Cond::True, 1, 0), Op::Commit(2),
+            ],
+        ),
+    ];
+    for (what, bm, ops) in &bcorpus {
+        let (t, _h, _nt) = run_case_b(ops, 30, 3, 8, Some(*bm), &mut dist);
+        bud.push(&t, what, true);
+    }
+    for _ in 0..args.budget(250, 10000) {
+        let vv = 3;
+        let bm = rng.range(1, 3);
+        // indexes are created on the empty table (a create_btree_index that runs out of budget is DDL, not a transaction)
+        let mut ops = vec![Op::CreateBtree(1)];
+        if rng.chance(1, 2) {
+            ops.push(Op::CreateIndex(rng.below(2)));
+        }
+        if rng.chance(1, 3) {
+            ops.push(Op::CreateBtree(0));
+        }
+        let mut begun = 0u64;
+        for _ in 0..rng.range(6, 24) {
+            let k = rng.below(100);
+            let tx = if begun > 0 && rng.chance(3, 4) { Some(rng.range(1, begun)) } else { None };
+            ops.push(if k < 12 && begun < 3 {
+                begun += 1;
+                Op::Begin
+            } else if k < 40 {
+                Op::Insert(tx, rng.below(vv), rng.below(vv))
+            } else if k < 72 {
+                Op::Update(tx, gen_cond(&mut rng, vv, 0), rng.below(2), rng.below(vv))
+            } else if k < 82 {
+                Op::Delete(tx, gen_cond(&mut rng, vv, 0))
+            } else if k < 90 && begun > 0 {
+                Op::Commit(rng.range(1, begun))
+            } else if begun > 0 {
+                Op::Rollback(rng.range(1, begun))
+            } else {
+                Op::Insert(None, rng.below(vv), rng.below(vv))
+            });
+        }
+        let (t, h, nt) = run_case_b(&ops, 30, vv, 8, Some(bm), &mut dist);
+        bud.push(&t, &format!("budget={bm} {h}"), nt);
+    }
+
     write_meta(
         &args.out,
         json!({
             "property": "C09", "seed": args.seed, "tier": args.tier,
-            "kinds": [rel.summary()],
+            "kinds": [rel.summary(), bud.summary()],
             "distribution": dist.json(),
             "nontrivial_rule": "rel: at least one rollback of a live transaction or one lock conflict",
         }),
